@@ -814,6 +814,19 @@ func fillPartitionMapV2(ns string,
 	oldPartitionNodes [][]string,
 	sortedNodes SortableStrings) [][]string {
 
+	// an old replica list can be longer than the wanted replica (the replica is lowered, or a new node
+	// was added before the moved one is removed). Only its first replica members can be kept, so the others
+	// should neither be counted as load nor be excluded from the candidates, otherwise we may have
+	// no candidate left for a failed member.
+	trimmedOldNodes := make([][]string, len(oldPartitionNodes))
+	for pid, olist := range oldPartitionNodes {
+		if len(olist) > replica {
+			olist = olist[:replica]
+		}
+		trimmedOldNodes[pid] = olist
+	}
+	oldPartitionNodes = trimmedOldNodes
+
 	newNodesReplicaMap := make(map[string][]int)
 	newNodesLeaderMap := make(map[string][]int)
 	nameIndexMap := make(map[string]int, len(sortedNodes))
